@@ -363,6 +363,58 @@ class VfsProbe(Stream):
             yield dict(case, ops=case["ops"][:i] + case["ops"][i + 1:])
 
 
+def _req_key(q):
+    """a requirement without the `extra == ...` part of its marker"""
+    import re
+    from rv import graphlib as GL
+    m = str(q.marker) if q.marker is not None else ""
+    m = re.sub(r'\s*(and\s+)?extra\s*==\s*"[^"]*"(\s+and)?\s*', " ", m).strip()
+    m = re.sub(r'^\(\s*\)$', "", m)
+    if m:
+        # the fallback path hands out requirements with their environment markers already evaluated: compare what
+        # applies on the running interpreter
+        from packaging.markers import Marker
+        try:
+            if not Marker(m).evaluate({"extra": ""}):
+                return None
+        except Exception:
+            return None
+    return [GL.norm(q.name), sorted(str(x) for x in q.specifier), sorted(x.lower() for x in q.extras), ""]
+
+
+def views_of_result(r, extras):
+    """what the solver sees: for no extra and for every extra, the union of requires(None) and requires(extra)"""
+    out = {}
+    base = [k for k in (_req_key(q) for q in r.requires(None)) if k is not None]
+    out[""] = sorted({json_key(k): k for k in base}.values())
+    for e in extras:
+        out[e] = sorted({json_key(k): k for k in base + [k2 for k2 in (_req_key(q) for q in r.requires(e)) if k2 is not None]}.values())
+    return out
+
+
+def json_key(k):
+    import json
+    return json.dumps(k)
+
+
+def views_of_spec(spec):
+    from rv import graphlib as GL
+    extras = dict(spec["extras"])
+    base = [k for k in (_req_key(GL.P(t)) for t in spec["requires"]) if k is not None]
+    if spec.get("cond_dir") and spec["style"] == "kwargs":
+        base.append(_req_key(GL.P("dirdep>=1")))
+    if spec["style"] == "kwargs":
+        for k, rs in spec.get("marker_extra", {}).items():
+            for t in rs:
+                kk = _req_key(GL.P(t + (" and " if ";" in t else "; ") + k[1:]))
+                if kk is not None:
+                    base.append(kk)
+    out = {"": sorted({json_key(k): k for k in base}.values())}
+    for e, rs in extras.items():
+        out[e.lower()] = sorted({json_key(k): k for k in base + [k2 for k2 in (_req_key(GL.P(t)) for t in rs) if k2 is not None]}.values())
+    return out
+
+
 class DeclaredVsExtracted(Stream):
     name = "declared-vs-extracted"
     quick_n = 60
@@ -383,27 +435,33 @@ class DeclaredVsExtracted(Stream):
         for sp in (a, b):
             if sp["style"] == "kwargs" and rng.random() < 0.2:
                 sp["cond_dir"] = rng.choice(["sub", "src"])
-        if rng.random() < 0.25:
+        if rng.random() < 0.3:
+            # the first project imports its helper module and then fails in-process (it spawns a process), so it is
+            # analysed by the fallback; the second project imports a helper module of the same name
+            b.update(style="kwargs", prelude=["import-helper", "spawn-uncaught"])
+            a.update(style="kwargs", **rng.choice([{"version_from": "module"}, {"reqs_from": "helper"}, {"version_from": "module", "reqs_from": "helper"}]))
+        elif rng.random() < 0.25:
             a["prelude"] = rng.sample(["spawn", "print", "chdir-here", "exists", "listdir", "warn", "import-helper", "syspath-src"], rng.randint(1, 2))
         return {"first": b, "spec": a, "cwd": rng.choice(["neutral", "project", "parent"])}
 
-    def _extract(self, spec, root, pk, cwd_kind):
+    def _extract(self, spec, root, pk, cwd_kind, keep_state=None):
         from rv import procsnap as PS
         import req_compile.metadata
         os.makedirs(os.path.join(root, "neutral"), exist_ok=True)
         path = PG.materialise(spec, root, pk)
         real_cwd = {"neutral": os.path.join(root, "neutral"), "project": path if pk == "dir" else root, "parent": root}[cwd_kind]
         keep = PS.ORIG_GETCWD()
-        before = PS.take()
+        before = keep_state if keep_state is not None else PS.take()
         PS.ORIG_CHDIR(real_cwd)
         try:
             with contextlib.redirect_stderr(io.StringIO()), contextlib.redirect_stdout(io.StringIO()):
                 r = req_compile.metadata.extract_metadata(path)
-            return {"name": r.name, "version": str(r.version), "reqs": sorted(str(q) for q in r.reqs)}
+            return {"name": r.name, "version": str(r.version), "views": views_of_result(r, sorted(e.lower() for e in spec["extras"]))}
         except BaseException as ex:
             return {"error": type(ex).__name__, "metadata_error": type(ex).__name__ == "MetadataError"}
         finally:
-            PS.restore(before)
+            if keep_state is None:
+                PS.restore(before)       # the second project of a pair sees whatever the first one left behind
             PS.ORIG_CHDIR(keep)
 
     def impl(self, case):
@@ -415,12 +473,21 @@ class DeclaredVsExtracted(Stream):
             shutil.rmtree(root, ignore_errors=True)
             os.makedirs(os.path.join(root, "one"))
             os.makedirs(os.path.join(root, "two"))
-            first = self._extract(case["first"], os.path.join(root, "one"), pk, "neutral")
-            out["per"][pk] = self._extract(case["spec"], os.path.join(root, "two"), pk, case["cwd"])
+            from rv import procsnap as PS
+            snap = PS.take()
+            first = self._extract(case["first"], os.path.join(root, "one"), pk, "neutral", keep_state=snap)
+            try:
+                out["per"][pk] = self._extract(case["spec"], os.path.join(root, "two"), pk, case["cwd"], keep_state=snap)
+            finally:
+                PS.restore(snap)
             out.setdefault("first", {})[pk] = first
         shutil.rmtree(base, ignore_errors=True)
-        out["declared"] = PG.declared(case["spec"])
-        out["declared_first"] = PG.declared(case["first"])
+        from rv import graphlib as GL
+
+        def decl(sp):
+            return {"name": sp["name"], "version": str(GL.V(sp["version"])), "views": views_of_spec(sp)}
+        out["declared"] = decl(case["spec"])
+        out["declared_first"] = decl(case["first"])
         return out
 
     def flags(self, case, r):
@@ -432,6 +499,8 @@ class DeclaredVsExtracted(Stream):
             fl.append("marker-extra")
         if s.get("cond_dir"):
             fl.append("requirement-conditional-on-directory")
+        if "spawn-uncaught" in case["first"].get("prelude", []):
+            fl.append("first-project-falls-back-after-importing-helper")
         if case["first"]["name"] == s["name"]:
             fl.append("same-name-analysed-before")
         return fl
@@ -446,6 +515,9 @@ class DeclaredVsExtracted(Stream):
                     region = "pyproject-archive"
                 elif spec.get("cond_dir") and pk == "tar.gz" and not spec.get("tar_dir_entries", True):
                     region = "tar-without-dir-entries"
+                elif pk == "dir" and "spawn-uncaught" in spec.get("prelude", []) and "error" not in got and \
+                        got["version"] == decl["version"] and got["views"] == decl["views"]:
+                    region = "fallback-names-directory"
                 else:
                     region = "other"
                 if region != "other":
@@ -453,7 +525,12 @@ class DeclaredVsExtracted(Stream):
                 if "error" in got:
                     sig = "C12/%sanalysis-fails/%s" % (which, region)
                 else:
-                    field = "name" if got["name"] != decl["name"] else "version" if got["version"] != decl["version"] else "requirements"
+                    from rv import graphlib as GL
+                    field = "name" if GL.norm(got["name"]) != GL.norm(decl["name"]) else "version" if got["version"] != decl["version"] else "requirements"
+                    if field == "name" or (field == "requirements" and got["views"] == decl["views"]):
+                        pass
+                    if GL.norm(got["name"]) == GL.norm(decl["name"]) and got["version"] == decl["version"] and got["views"] == decl["views"]:
+                        continue          # the same project under another spelling of its name
                     sig = "C12/%s%s-differs/%s" % (which, field, region)
                 fails.append((sig, {"packaging": pk, "declared": decl, "extracted": got}))
                 if "error" in got and not got.get("metadata_error"):
